@@ -26,6 +26,15 @@ py_replace = z3.Function("py_replace", z3.StringSort(), z3.StringSort(), z3.Stri
 py_float_str = z3.Function("py_float_str", z3.RealSort(), z3.StringSort())
 py_str_float = z3.Function("py_str_float", z3.StringSort(), z3.RealSort())
 py_str_int = z3.Function("py_str_int", z3.StringSort(), z3.IntSort())
+py_strip_chars = z3.Function("py_strip_chars", z3.StringSort(), z3.StringSort(), z3.StringSort())   # s.strip(chars)
+py_nwords = z3.Function("py_nwords", z3.StringSort(), z3.IntSort())                                # len(s.split())
+py_word = z3.Function("py_word", z3.StringSort(), z3.IntSort(), z3.StringSort())                   # s.split()[i], 0 <= i < len
+
+
+def _native_word(s, i):
+    w = s.split()
+    return w[i] if 0 <= i < len(w) else ""      # outside the range the model never reads it (IndexError is raised first)
+
 
 UF_NATIVE = {
     "py_lower": lambda s: s.lower(),
@@ -33,6 +42,9 @@ UF_NATIVE = {
     "py_strip": lambda s: s.strip(),
     "py_rep": lambda s, n: s * n,
     "py_replace": lambda s, a, b: s.replace(a, b),
+    "py_strip_chars": lambda s, c: s.strip(c),
+    "py_nwords": lambda s: len(s.split()),
+    "py_word": _native_word,
 }
 
 
@@ -454,6 +466,12 @@ def strip(x):
     return Sym(STR, py_strip(x.t))
 
 
+def strip_chars(x, chars):
+    if not is_sym(x):
+        return x.strip(chars)
+    return Sym(STR, py_strip_chars(x.t, term(chars)))
+
+
 def startswith(x, p):
     if not is_sym(x) and not is_sym(p):
         return x.startswith(p)
@@ -603,7 +621,7 @@ def axioms_for(formulas):
     *not* assumed: it is false for e.g. U+0130)."""
     apps, seen = [], set()
     for f in formulas:
-        _collect_apps(f, {"py_lower", "py_upper", "py_strip", "py_rep", "py_replace", "py_float_str"}, apps, seen)
+        _collect_apps(f, {"py_lower", "py_upper", "py_strip", "py_rep", "py_replace", "py_float_str", "py_nwords", "py_strip_chars"}, apps, seen)
     out = []
     done = set()
     # constant ASCII prefixes / suffixes tested on x carry over to lower(x) / upper(x)
@@ -672,6 +690,13 @@ def axioms_for(formulas):
             nolead = z3.And(*[z3.Not(z3.PrefixOf(z3.StringVal(ch), x)) for ch in WS_CHARS + "\x1c\x1d\x1e\x1f\x85\xa0"])
             notrail = z3.And(*[z3.Not(z3.SuffixOf(z3.StringVal(ch), x)) for ch in WS_CHARS + "\x1c\x1d\x1e\x1f\x85\xa0"])
             out.append(z3.Implies(z3.And(nolead, notrail, _ascii_ends(x)), a == x))
+        elif n == "py_nwords":
+            out.append(a >= 0)                                # a length
+        elif n == "py_strip_chars":
+            x = a.arg(0)
+            out.append(z3.Length(a) <= z3.Length(x))
+            out.append(z3.Contains(x, a))
+            out.append(py_strip_chars(a, a.arg(1)) == a)      # idempotent for the same character set
         elif n == "py_float_str":
             # repr of a float: non-empty, no blanks, begins with a digit, '-', 'i' (inf) or 'n' (nan), ends with a
             # digit or a letter of inf/nan: in particular never starts or ends with a delimiter
@@ -766,6 +791,12 @@ def selftest_axioms():
             bad.append(("no-upper-is-own-lower", repr(s)))
         if _re.fullmatch(r"[ -`{-~]*", s) and s.upper() != s:
             bad.append(("no-lower-is-own-upper", repr(s)))
+        for ch in ("'", '"', "'\"", "ab"):
+            sc = s.strip(ch)
+            if len(sc) > len(s) or sc not in s or sc.strip(ch) != sc:
+                bad.append(("strip-chars", repr(s)))
+        if len(s.split()) < 0 or (s.split("#")[0] != (s[:s.index("#")] if "#" in s else s)):
+            bad.append(("split", repr(s)))
         for k in (-1, 0, 1, 3):
             if len(s * k) != len(s) * max(k, 0):
                 bad.append(("rep-length", repr(s)))
